@@ -79,22 +79,25 @@ def check_c09(tier, only=None):
     wd = workdir(f"{prop}-{tier}")
     build_harness(["wire"])
     gen, gr = tlc_generate("c09", 0, 0, f"{prop}-gen")
-    contents = gen["contents"]
+    contents = gen["contents"]; incomplete = gen.get("incomplete", [])
     sets = capsets(tier) if only is None else only["capsets"]
     if only is not None:
-        contents = only["contents"]
+        contents = only["contents"]; incomplete = only.get("incomplete", [])
     cpath = os.path.join(wd, "contents.json"); spath = os.path.join(wd, "capsets.json")
-    json.dump({"contents": contents}, open(cpath, "w")); json.dump(sets, open(spath, "w"))
+    json.dump({"contents": contents, "incomplete": incomplete}, open(cpath, "w")); json.dump(sets, open(spath, "w"))
     trace = os.path.join(wd, "c09.trace")
     run_harness("wire", ["c09", cpath, spath], trace)
     stats, viols = validate_trace("WireTrace", trace, prop, f"{prop}-{tier}", TRACE_CFG, nchunks=12 if tier == "thorough" else 8, independent=True)
     def lookup(k):
         if not isinstance(k, int):
             return None
-        return {"capsets": [sets[k // 1000]], "contents": [contents[k % 1000]]}
+        j = k % 1000
+        if j < len(contents):
+            return {"capsets": [sets[k // 1000]], "contents": [contents[j]]}
+        return {"capsets": [sets[k // 1000]], "contents": [], "incomplete": [incomplete[j - len(contents)]]}
     return finish(prop, tier, t0, verdict, stats, viols, gr,
                   {"samples": [{"caps": sets[len(sets) // 2], "content": contents[7]}, {"caps": sets[1], "content": contents[-1]}],
-                   "capability_sets": len(sets), "request_contents": len(contents), "exhaustive": tier == "thorough",
+                   "capability_sets": len(sets), "request_contents": len(contents), "requests_built_without_a_mandatory_parameter": len(incomplete), "exhaustive": tier == "thorough",
                    "rule": "capability sets (thorough: all 2^13 subsets of the 10 standard capabilities + 3 url schemes; quick: empty, all, "
                            "each single, all-but-one, 60 seeded random) x every request content of Wire!ContentCases, each issued through the "
                            "public builders on a real session whose server hello advertised exactly that set; TLC evaluates "
